@@ -163,9 +163,8 @@ func c05(args []string) int {
 	deadline := time.Now().Add(ev.Budget(100*time.Second, 40*time.Minute))
 	scs := c05Scenarios()
 	if !thorough {
-		// quick tier: the first four scenarios plus the run-time re-baselining one (a listing that breaks while the
-		// baseline is re-established is a different code path from every listing of the steady state)
-		scs = append(scs[:4:4], scs[6])
+		// quick tier: every scenario with every single deviation (about 25 s), then pairs in this order until the budget ends
+		scs = []e3Scenario{scs[6], scs[2], scs[7], scs[0], scs[3], scs[1], scs[4], scs[5]} // small, state-rebuilding scenarios first: they get their pairs done
 	}
 	type job struct {
 		sc   e3Scenario
@@ -257,6 +256,7 @@ func c05(args []string) int {
 		}
 		return d
 	}
+	var quickSingles [][]job // quick tier: the single-deviation jobs per scenario, for the pair phase below
 	for _, sc := range scs {
 		base := c05Run(sc, nil)
 		evals++
@@ -279,6 +279,9 @@ func c05(args []string) int {
 		r.Singles = done
 		devRuns += int64(done)
 		r.Done = done == len(jobs)
+		if !thorough {
+			quickSingles = append(quickSingles, jobs)
+		}
 		if thorough && r.Done && harnessErr == nil {
 			// every pair: the second point is re-derived from the run with the first deviation applied
 			var pairs []job
@@ -314,6 +317,46 @@ func c05(args []string) int {
 			break
 		}
 	}
+	// Quick tier: with every single deviation of every scenario done, the rest of the budget goes into pairs,
+	// scenario by scenario ("complete" keeps meaning "all singles"; quick_pairs_complete_for names the scenarios
+	// whose pairs were all run as well).
+	pairsComplete := []string{}
+	if !thorough && harnessErr == nil && exhaustive && len(quickSingles) == len(scs) {
+		for si, jobs := range quickSingles {
+			if time.Now().After(deadline) {
+				break
+			}
+			sc := scs[si]
+			var pairs []job
+			cut := false
+			for _, j1 := range jobs {
+				var i1 int
+				for k := range j1.plan {
+					i1 = k
+				}
+				r1 := c05Run(sc, j1.plan)
+				for _, p := range r1.Points {
+					if p.Index <= i1 {
+						continue
+					}
+					for _, d := range faultclient.Menu(p.Kind) {
+						pairs = append(pairs, job{sc, map[int]string{i1: j1.plan[i1], p.Index: d}})
+					}
+				}
+				if time.Now().After(deadline) {
+					cut = true
+					break
+				}
+			}
+			dp := runJobs(pairs)
+			devRuns += int64(dp)
+			reports[si].Pairs = dp
+			if !cut && dp == len(pairs) {
+				pairsComplete = append(pairsComplete, sc.Name)
+			}
+			fmt.Printf("[C05] scenario %-24s pair runs=%d of %d%s\n", sc.Name, dp, len(pairs), map[bool]string{true: " (enumeration cut by the budget)", false: ""}[cut])
+		}
+	}
 	if harnessErr != nil {
 		fmt.Fprintln(os.Stderr, "HARNESS ERROR (no verdict):", harnessErr)
 		return 2
@@ -330,7 +373,7 @@ func c05(args []string) int {
 		Coverage: map[string]any{
 			"evaluations": evals, "distinct_nontrivial": len(outcomes),
 			"rule":        "deviation-bounded enumeration: for each scenario every client call is numbered; all runs with 0 deviations, every single deviation of the call's menu at every call (quick+thorough), every pair of deviations with the second point re-derived from the run under the first (thorough); oracle after EVERY client call: no hole in remote level-0, restore(latest) succeeds and equals a committed source state; at every acknowledgement: remote level-0 max >= local TXID and page-exact restore; after the fault-free suffix: acknowledged, page-exact, no gap in levels >= 1; distinct = (acks, failed ops, replica shape) classes",
-			"samples":     samples, "exhaustive": exhaustive, "scenarios": reports, "deviation_runs": devRuns,
+			"samples":     samples, "exhaustive": exhaustive, "quick_pairs_complete_for": pairsComplete, "scenarios": reports, "deviation_runs": devRuns,
 		}}
 	if err := ev.Write(e); err != nil {
 		fmt.Fprintln(os.Stderr, err)
